@@ -1,3 +1,4 @@
 /- Props/C12.lean — property C12: all theorems live in namespace CM.Props.C12, split over two files. -/
+import CircuitProofs.Props.C12Tie
 import CircuitProofs.Props.C12Base
 import CircuitProofs.Props.C12Ordered
